@@ -12,7 +12,13 @@ import (
 type c16Case struct {
 	Strs []string `json:"strs"`
 	Src  string   `json:"src"`
+	// OnlyLast: Strs is a recorded history (every string this worker handled before, in order); all of it is
+	// re-executed but only the last string is judged. A verdict on a string must not depend on what was parsed
+	// before, and if it does the replay has to reproduce the same history.
+	OnlyLast bool `json:"only_last,omitempty"`
 }
+
+var c16Hist []string
 
 var c16Leaves = []*PExpr{PP("ex.p"), PP("ex.q"), PI("ex.p"), PT()}
 
@@ -205,7 +211,14 @@ func c16Profile(path string) string {
 func c16Run(c *Ctx, cs c16Case) {
 	for i, s := range cs.Strs {
 		ref := ParsePathRef(s)
-		one := c16Case{Strs: []string{s}, Src: cs.Src}
+		c16Hist = append(c16Hist, s)
+		one := c16Case{Strs: append([]string{}, c16Hist...), Src: cs.Src, OnlyLast: true}
+		judge := !cs.OnlyLast || i == len(cs.Strs)-1
+		violate := func(sig, detail string, cse any) {
+			if judge {
+				c.Violate(sig, detail, cse)
+			}
+		}
 		prof := c16Profile(s)
 		q, cr := Compile(prof)
 		c.Eval(1)
@@ -242,7 +255,7 @@ func c16Run(c *Ctx, cs c16Case) {
 			} else if strings.Contains(s, "*") {
 				kind = "non-sentence accepted: undocumented '*' modifier"
 			}
-			c.Violate("C16 "+kind, fmt.Sprintf("string %q is not a sentence of the grammar but compiles; parsed as %s", s, shape), one)
+			violate("C16 "+kind, fmt.Sprintf("string %q is not a sentence of the grammar but compiles; parsed as %s", s, shape), one)
 		case ref != nil && !accepted && !declaredPrefixes(ref):
 			// a sentence that uses a prefix the profile does not declare is rejected for that reason; no expectation here
 			c.Outcome("sentence with undeclared prefix rejected")
@@ -251,15 +264,15 @@ func c16Run(c *Ctx, cs c16Case) {
 			if cr.Panic != nil {
 				sig = "C16 sentence rejected by panic at " + cr.Panic.Sig()
 			}
-			c.Violate(sig, fmt.Sprintf("string %q is a sentence (%s) but CompileProfile fails: %s", s, ref.Shape(), cr.ErrString()), one)
+			violate(sig, fmt.Sprintf("string %q is a sentence (%s) but CompileProfile fails: %s", s, ref.Shape(), cr.ErrString()), one)
 		case ref != nil && accepted:
 			p, err, pn := ParsePath(s)
 			if err != nil || pn != nil || p == nil {
-				c.Violate("C16 accepted but path parser fails when called directly", fmt.Sprintf("%q", s), one)
+				violate("C16 accepted but path parser fails when called directly", fmt.Sprintf("%q", s), one)
 				break
 			}
 			if got := PathShape(p); got != ref.Shape() {
-				c.Violate("C16 structure differs from the grammar's", fmt.Sprintf("string %q: implementation %s, grammar %s", s, got, ref.Shape()), one)
+				violate("C16 structure differs from the grammar's", fmt.Sprintf("string %q: implementation %s, grammar %s", s, got, ref.Shape()), one)
 			}
 			// denotation on a collision graph for a subset (every 4th accepted string of the pack)
 			if i%4 == 0 && strings.HasPrefix(ref.Render(), "") && onlyKnownPreds(ref) {
@@ -267,7 +280,7 @@ func c16Run(c *Ctx, cs c16Case) {
 				res := ValidateCompiled(q, doc.data)
 				c.Eval(1)
 				if res.Err != nil || res.Panic != nil {
-					c.Violate("C16 accepted path fails at evaluation: "+firstLine(res.ErrString()), fmt.Sprintf("%q", s), one)
+					violate("C16 accepted path fails at evaluation: "+firstLine(res.ErrString()), fmt.Sprintf("%q", s), one)
 					break
 				}
 				rep, err := ParseReport(res.Report)
@@ -293,7 +306,7 @@ func c16Run(c *Ctx, cs c16Case) {
 						got = map[string]bool{}
 					}
 					if !setEq(got, exp) {
-						c.Violate("C16 denotation differs from the grammar's structure", fmt.Sprintf("string %q focus %s expected %s got %s", s, n.ID, setStr(exp), setStr(got)), one)
+						violate("C16 denotation differs from the grammar's structure", fmt.Sprintf("string %q focus %s expected %s got %s", s, n.ID, setStr(exp), setStr(got)), one)
 						break
 					}
 				}
